@@ -501,6 +501,8 @@ func transformStage(r *ev.Run) {
 		}
 	}
 	dirs = append(dirs, model3d.XYZ(0.3, 1, 0.2), model3d.XYZ(-0.7, 0.1, 0.71), model3d.XYZ(2, -0.2, 0.9))
+	nz := math.Copysign(0, -1)
+	dirs = append(dirs, model3d.XYZ(-1, nz, nz), model3d.XYZ(nz, 1, nz), model3d.XYZ(1, nz, -1))
 	for _, b := range base {
 		for _, t := range xfs {
 			w := t.wrap(b)
